@@ -12,18 +12,29 @@ def dedupNats (l : List Nat) : List Nat := sortNats l
 
 /-! ### component comparison (both sides accepted the op) -/
 
-def eraseFeeL (l : Listing) : Listing := { l with fee := none }
+/-- what C08 reads of a listing: everything but the pending fee, and the goods only while the
+    listing is not sold (a purchase deducts fee and royalties from them: C06's business) -/
+def eraseFeeL (l : Listing) : Listing :=
+  { l with fee := none, forSale := if l.status == .closed then GBal.empty else l.forSale }
 
 def nftCodes (l : List Nft) : List (List Nat) := sortCodes (l.map (fun n => [n.coll, n.tid]))
 
-/-- C01 abstraction: per asset owed/held, recorded and held NFT sets -/
+/-- the C01 defect of a world: per asset `held - owed`, NFTs recorded but not held and held but not
+    recorded (honest collections). All zero / empty iff `checkC01`. -/
+def defect01 (w : World) (natives tokens : List Nat) : List Int × List Int × List (List Nat) × List (List Nat) :=
+  let rec_ := (recordedNfts w.mkt).filter (fun n => w.isHonest721 n.coll)
+  let held := heldNfts w
+  (natives.map (fun d => (lget w.bank (w.self, d) : Int) - (owedNative w.mkt d : Int)),
+   tokens.map (fun t => (lget w.cw20 (t, w.self) : Int) - (owedCw20 w.mkt t : Int)),
+   nftCodes (rec_.filter (fun n => !held.contains n)) ++ nftCodes (rec_.filter (fun n => decide (rec_.count n > 1))),
+   nftCodes (held.filter (fun n => !rec_.contains n)))
+
+/-- C01 abstraction: the accounting *defect* agrees (what the invariant `held = owed` reads);
+    absolute amounts are the business of C05 / C06. -/
 def abs01Eq (a b : World) : Bool :=
-  (dedupNats (nativeUniverse a ++ nativeUniverse b)).all (fun d =>
-    owedNative a.mkt d == owedNative b.mkt d && lget a.bank (a.self, d) == lget b.bank (b.self, d)) &&
-  (dedupNats (cw20Universe a ++ cw20Universe b)).all (fun t =>
-    owedCw20 a.mkt t == owedCw20 b.mkt t && lget a.cw20 (t, a.self) == lget b.cw20 (t, b.self)) &&
-  nftCodes (recordedNfts a.mkt) == nftCodes (recordedNfts b.mkt) &&
-  nftCodes (heldNfts a) == nftCodes (heldNfts b)
+  let ds := dedupNats (nativeUniverse a ++ nativeUniverse b)
+  let ts := dedupNats (cw20Universe a ++ cw20Universe b)
+  defect01 a ds ts == defect01 b ds ts
 
 /-- C10 abstraction: pending fees and pool balance per fee denomination -/
 def abs10Eq (a b : World) : Bool :=
@@ -59,7 +70,6 @@ def compDiffs (iw mw : World) (io : ImplOutcome) (mo : Outcome) : List String :=
     ("C", iw.nowNs == mw.nowNs && iw.height == mw.height),
     ("M", icodes == mcodes),
     ("a01", abs01Eq iw mw),
-    ("a10", abs10Eq iw mw && poolCodes icodes == poolCodes mcodes),
     ("a08", canonListings (iw.mkt.listings.map (fun p => (p.1, eraseFeeL p.2))) ==
             canonListings (mw.mkt.listings.map (fun p => (p.1, eraseFeeL p.2)))),
     ("a09", sortNats iw.mkt.listingUsed == sortNats mw.mkt.listingUsed &&
@@ -123,32 +133,37 @@ def monotone08 (a b : World) : Bool :=
 
 def subsetNats (a b : List Nat) : Bool := a.all (fun x => decide (x ∈ b))
 
-/-- C11 / C06 oracle on one side of a purchase: `pre` = the side's balance before, `post` after,
-    `fee` the recorded fee, `fd` the fee denomination in force. -/
-def sideOk (fd : Nat) (pre post : GBal) (fee : Option Coin) : Bool :=
-  let feeOf (k : Nat) (isNative : Bool) : Nat :=
-    if isNative then feeAmt fee k else 0
-  pre.native.all (fun c =>
-    let f := feeOf c.key true
-    let y := coinAmt post.native c.key
-    decide (f = (if c.key = fd then c.amount * 5 / 1000 else 0)) &&
-    decide (1 ≤ y) && decide (y + f ≤ c.amount) && decide (2 * (c.amount - f - y) ≤ c.amount - f)) &&
-  pre.cw20.all (fun c =>
-    let y := coinAmt post.cw20 c.key
-    decide (1 ≤ y) && decide (y ≤ c.amount) && decide (2 * (c.amount - y) ≤ c.amount)) &&
-  nftCodes pre.nfts == nftCodes post.nfts &&
-  (match fee with | none => true | some f => decide (f.key = fd) && decide (f.amount ≠ 0))
+/-- Oracles on one side of a purchase: `pre` = the side's balance before, `post` after, `fee` the
+    recorded fee, `fd` the fee denomination in force. Returns the names of the failed parts:
+    `f` fee value is not the floor formula (C06), `w` a recorded fee was not withheld from the
+    side (C10: a fee that is recorded must have been deducted), `h` more than half left / nothing
+    stayed / NFTs changed (C11, C06). -/
+def sideFails (fd : Nat) (pre post : GBal) (fee : Option Coin) : List String :=
+  let fOk := pre.native.all (fun c =>
+      decide (feeAmt fee c.key = (if c.key = fd then c.amount * 5 / 1000 else 0))) &&
+    (match fee with | none => true | some f => decide (f.key = fd) && decide (f.amount ≠ 0) && decide (coinAmt pre.native f.key ≠ 0))
+  let wOk := pre.native.all (fun c => decide (coinAmt post.native c.key + feeAmt fee c.key ≤ c.amount)) &&
+    (match fee with | none => true | some f => decide (coinAmt post.native f.key + f.amount ≤ coinAmt pre.native f.key))
+  let hOk := pre.native.all (fun c =>
+      let f := feeAmt fee c.key
+      let y := coinAmt post.native c.key
+      decide (1 ≤ y) && decide (2 * (c.amount - f - y) ≤ c.amount - f)) &&
+    pre.cw20.all (fun c =>
+      let y := coinAmt post.cw20 c.key
+      decide (1 ≤ y) && decide (y ≤ c.amount) && decide (2 * (c.amount - y) ≤ c.amount)) &&
+    nftCodes pre.nfts == nftCodes post.nfts
+  (if fOk then [] else ["f"]) ++ (if wOk then [] else ["w"]) ++ (if hOk then [] else ["h"])
 
 /-- purchase oracle: fee and royalty bounds on both traded records -/
-def buyOracle (a b : World) (lid bid : Nat) : Bool :=
+def buyOracle (a b : World) (lid bid : Nat) : List String :=
   match findById lid a.mkt.listings, findById lid b.mkt.listings with
   | some (_, l), some (_, l') =>
     let fd := feeDenomOf a.env a.mkt.feeKind
-    sideOk fd l.forSale l'.forSale l'.fee &&
+    sideFails fd l.forSale l'.forSale l'.fee ++
     (match (a.mkt.buckets.find? (fun p => decide (p.1.2 = bid))), (b.mkt.buckets.find? (fun p => decide (p.1.2 = bid))) with
-     | some (_, bk), some (_, bk') => sideOk fd bk.funds bk'.funds bk'.fee
-     | _, _ => false)
-  | _, _ => false
+     | some (_, bk), some (_, bk') => sideFails fd bk.funds bk'.funds bk'.fee
+     | _, _ => ["x"])
+  | _, _ => ["x"]
 
 /-- which pre-existing records of somebody other than `caller` changed -/
 def changedRecords (a b : World) (caller : Nat) : List String :=
